@@ -231,12 +231,26 @@ Proof. exact reuse_simulated. Qed.
 Theorem C03_relay_reuse_no_panic : forall cf ls st, run_reuse cf init ls = Some st -> panicked st = 0.
 Proof. exact reuse_no_panic. Qed.
 
-(* The guard of [run_reuse] is NECESSARY -- the unrestricted statement "no schedule with re-used ids
-   panics" is FALSE for the model of the code as it is: REFUTED by [ex_early_delete], a race of two
-   reader goroutines on one call (final call res looked up by one reader while the other fails the
-   call because the destination queue is full) after which finishRelayItem deletes a tombstone
-   whose collection is still pending; the id is re-used, admitted (no item), and the stale
-   collection deletes the live item: panic "only stopped or completed timers can be released". *)
+(* ... and in these schedules a pending tombstone collection only ever meets a tombstone or
+   nothing, so the collection that deletes whatever has the id (relayItems.Delete, the code before
+   fix d6df05f, = the model's LGc) and the one that deletes tombstones only (relayItems.deleteTomb,
+   the code after it) do the same *)
+Theorem C03_collection_meets_only_tombstones : forall cf ls st t it, run_reuse cf init ls = Some st ->
+  In t (gcs st) -> lookup key_eqb t (items st) = Some it -> it_tomb it = true.
+Proof. exact reuse_gc_tombs. Qed.
+
+(* The guard of [run_reuse] is NECESSARY for the code as it was on the pinned tree (the model's LGc
+   step = time.AfterFunc(ttl, Delete(id))): the unrestricted statement "no schedule with re-used
+   ids panics" is REFUTED by [ex_early_delete], a race of two reader goroutines on one call (a
+   finishing frame looked up by one reader while the other fails the call because a send queue
+   is full) after which finishRelayItem deletes a tombstone whose collection is still pending; the
+   id is re-used, admitted (no item), and the stale collection deletes the live item: panic "only
+   stopped or completed timers can be released".  REPRODUCED on the implementation by a forced
+   schedule (engine peerinput, case race0, verdict [c03:tombstone-collection-deletes-live-item])
+   and repaired by fix d6df05f (the collection leaves a non-tombstone alone); with the fix the
+   witness below is a schedule of the MODEL only: the model's LGc is left as it is because by
+   C03_collection_meets_only_tombstones the two collections differ in no schedule of the
+   theorems of C03 / C09 / C10. *)
 Theorem C03_relay_reuse_unguarded_refuted :
   exists ls st, run ex_cf init ls = Some st /\ panicked st = panic_release_active.
 Proof. exact reuse_unguarded_refuted. Qed.
@@ -251,6 +265,7 @@ Print Assumptions C03_collection_of_live_item_panics.
 Print Assumptions C03_relay_reuse_simulated.
 Print Assumptions C03_relay_reuse_no_panic.
 Print Assumptions C03_fresh_schedules_included.
+Print Assumptions C03_collection_meets_only_tombstones.
 Print Assumptions C03_relay_reuse_unguarded_refuted.
 
 (* non-vacuity: call req 7 is relayed and times out (tombstone, collection pending); id 7 is
